@@ -549,7 +549,11 @@ def rearrange(
 
     def sort_key(branch: Branch):
         role, target = branch
+        # alignments are not part of the role or the target
+        role = role.partition('~')[0]
         if is_atomic(target):
+            if isinstance(target, str) and not target.startswith('"'):
+                target = target.partition('~')[0]
             criterion1 = target in variables
         else:
             criterion1 = target[0] in variables
